@@ -57,13 +57,13 @@ func sigWithSign(b []byte) []byte {
 // edTorsion returns the 8 canonical encodings of the 8-torsion points (identity first) and a list of
 // non-canonical encodings of torsion points ("-0" forms and y+p forms).
 func edTorsion() (canon [][]byte, noncanon [][]byte) {
-	canon = append(canon, edWeakY[1])                               // O
-	canon = append(canon, edWeakY[4])                               // order 2
-	canon = append(canon, edWeakY[0], sigWithSign(edWeakY[0]))         // order 4
-	canon = append(canon, edWeakY[2], sigWithSign(edWeakY[2]))         // order 8
-	canon = append(canon, edWeakY[3], sigWithSign(edWeakY[3]))         // order 8
+	canon = append(canon, edWeakY[1])                                             // O
+	canon = append(canon, edWeakY[4])                                             // order 2
+	canon = append(canon, edWeakY[0], sigWithSign(edWeakY[0]))                    // order 4
+	canon = append(canon, edWeakY[2], sigWithSign(edWeakY[2]))                    // order 8
+	canon = append(canon, edWeakY[3], sigWithSign(edWeakY[3]))                    // order 8
 	noncanon = append(noncanon, sigWithSign(edWeakY[1]), sigWithSign(edWeakY[4])) // x = 0 with sign bit
-	for _, y := range []int64{0, 1} {                                        // y + p still fits in 255 bits
+	for _, y := range []int64{0, 1} {                                             // y + p still fits in 255 bits
 		v := new(big.Int).Add(edP, big.NewInt(y))
 		e := sigLE(v, 32)
 		noncanon = append(noncanon, e, sigWithSign(e))
@@ -391,7 +391,9 @@ func edEvaluate(c *kc.Ctx, b *sigBatch, v edV, model int) {
 // edMutations lists the structured mutations of one honest (key, msg, sig).
 func edMutations(c *kc.Ctx, rng *kc.Rng, k *edKey, other *edKey, msg, sig []byte, allBits bool) []edV {
 	var out []edV
-	rej := func(kind string, pub, m, s []byte) { out = append(out, edV{kind: kind, pub: pub, msg: m, sig: s, mustReject: true}) }
+	rej := func(kind string, pub, m, s []byte) {
+		out = append(out, edV{kind: kind, pub: pub, msg: m, sig: s, mustReject: true})
+	}
 	out = append(out, edV{kind: "honest", pub: k.pub, msg: msg, sig: sig, mustAccept: true})
 	// every / sampled bit of sigma
 	if allBits {
